@@ -410,15 +410,40 @@ impl<W: WorldSpec> Engine<W> {
             }
         }
         if full {
-            // dynamic key presented to another archetype: never matches
+            // dynamic keys presented to another archetype: never match, through any archetype-level
+            // entry point (verdicts and read paths)
             let other = (own + 1 + (self.step as usize % (n.max(2) - 1))) % n;
             if other != own {
                 let key = self.key_for(ei, false, false, other);
-                let w = self.ws[wid].as_ref().unwrap();
-                match catch(|| W::archs()[other].contains(w, Lvl::Arch, key)) {
-                    Ok(false) => {}
-                    Ok(true) => vio("C03", "accidental-match", format!("{}.contains({:?}) is true for a handle of another archetype", W::archs()[other].info().name, key)),
-                    Err(c) => vio("C10", "unexpected-panic", format!("contains on another archetype panicked: {}", c.msg)),
+                let od = W::archs()[other];
+                let mut hits: Vec<&'static str> = Vec::new();
+                let mut bad_panic: Option<String> = None;
+                {
+                    let w = self.ws[wid].as_mut().unwrap();
+                    let mut note = |name: &'static str, r: Result<bool, Caught>| match r {
+                        Ok(true) => hits.push(name),
+                        Ok(false) => {}
+                        Err(c) => {
+                            if !is_clean_forged_panic(&c.msg) {
+                                bad_panic = Some(format!("{}: {}", name, c.msg));
+                            }
+                        }
+                    };
+                    note("contains", catch(|| od.contains(w, Lvl::Arch, key)));
+                    note("resolve", catch(|| od.resolve(w, key).is_some()));
+                    note("to_direct", catch(|| od.to_direct(w, Lvl::Arch, key).is_some()));
+                    note("view", catch(|| od.read(w, RPath::AView, key).is_some()));
+                    note("borrow", catch(|| od.read(w, RPath::ABorrow, key).is_some()));
+                    note("find", catch(|| od.read(w, RPath::Find, key).is_some()));
+                    note("find_borrow", catch(|| od.read(w, RPath::FindBorrow, key).is_some()));
+                }
+                if !hits.is_empty() {
+                    vio("C03", "accidental-match", format!("{}: a dynamically typed key of another archetype ({:?}) is accepted by {:?}", od.info().name, key, hits));
+                    return;
+                }
+                if let Some(m) = bad_panic {
+                    vio("C10", "unexpected-panic", format!("dynamic key on another archetype panicked: {}", m));
+                    return;
                 }
             }
             // probes
